@@ -99,9 +99,10 @@ class PinchProblem:
         dict
             The loaded input structure.
         """
-        # results cached by target() belong to the problem loaded before
+        # results cached by target() and the name taken from a file belong to the problem loaded before
         self._results = None
         self._master_zone = None
+        self._project_name = type(self)._project_name
 
         if isinstance(source, TargetInput):
             self._problem_data = source
